@@ -114,12 +114,13 @@ class Report:
               f"inconclusive={len(self.inconclusive)} known={len(self.known_hits)} violations={len(self.violations)} "
               f"harness_errors={len(self.harness_errors)} wall={wall:.1f}s")
         sys.stdout.flush()
-        if self.harness_errors:
-            for h in self.harness_errors[:5]:
-                print(f"# HARNESS-ERROR {h}", file=sys.stderr)
-            return EXIT_HARNESS
+        for h in self.harness_errors[:5]:
+            print(f"# HARNESS-ERROR {h}", file=sys.stderr)
         if self.violations:
+            # every reported violation was replayed on the real code, so it stands on its own
             return EXIT_VIOLATION
+        if self.harness_errors:
+            return EXIT_HARNESS      # nothing is claimed by this run
         return EXIT_OK
 
 
